@@ -106,7 +106,7 @@ fn case<R: Ent + EucRing>(rng: &mut StdRng, t: &mut Tracer, st: &mut Stats, maxd
 pub fn record(a: &Args) {
     let mut t = Tracer::create(&a.out);
     let mut st = Stats::default();
-    let (nc, maxd) = if a.thorough() { (150, 7) } else { (24, 5) };
+    let (nc, maxd) = if a.thorough() { (800, 7) } else { (24, 5) };
     macro_rules! run { ($t:ty, $salt:expr, $maxd:expr, $pool:expr, $machine:expr) => {{ let mut rng = a.rng($salt); for _ in 0..nc { case::<$t>(&mut rng, &mut t, &mut st, $maxd, $pool, $machine); } }} }
     // spec -> impl: TLC-enumerated pairs with d2 d1 = 0, over Z, F3 and Z[i]
     if let Some(pth) = &a.inp {
